@@ -193,7 +193,8 @@ class Rotation(BaseOperation):
         atoms = context.atoms
 
         molecule = cast("Atoms", atoms[context._moving_indices])
-        phi, theta, psi = context.rng.uniform(0, 2 * np.pi, 3)
+        phi, cos_theta, psi = context.rng.uniform((0, -1, 0), (360, 1, 360))
+        theta = np.degrees(np.arccos(cos_theta))
         molecule.euler_rotate(phi, theta, psi, center="COM")  # type: ignore
 
         return molecule.positions - context.atoms.positions[context._moving_indices]
